@@ -55,6 +55,9 @@ def cases(tier, seed):
     for d in ("tinyT", "G5") if tier == "quick" else ("tinyT", "G5", "G1", "G2"):
         for fu in FU:
             out.append(dict(fam="sol", dev=d, fu=fu))
+    # the same device stated in other length / current units
+    for d, fu in (("G5nm", "uT"), ("G5mm", "T")):
+        out.append(dict(fam="sol", dev=d, fu=fu))
     for R, cx in itertools.product((0.5, 1.0, 3.0), range(3)):
         out.append(dict(fam="loop", R=R, centre=cx, dense=(tier == "thorough")))
     for i in range(4):
@@ -204,13 +207,17 @@ def _solution(dev_name, fu):
                           terminals=list(base.terminals), probe_points=base.probe_points)
         dev.make_mesh(max_edge_length=0.8)
         kw = dict(terminal_currents={"source": 1.0, "drain": -1.0})
+    elif dev_name in ("G5nm", "G5mm"):
+        dev = zoo.device("G5", units=dev_name[2:], z0=-0.2)
+        kw = {}
     else:
         dev = zoo.device(dev_name, z0=-0.2)
         kw = {}
     dt = 2.0**-5
     B = 0.4 * {"mT": 1.0, "uT": 1e3, "T": 1e-3}[fu]
+    cu_opt = {"G5nm": "nA", "G5mm": "mA"}.get(dev_name, "uA")
     opts = tdgl.SolverOptions(solve_time=4 * dt, dt_init=dt, dt_max=dt, adaptive=False, save_every=2, output_file=os.path.join(d, "s.h5"),
-                              field_units=fu, progress_interval=10**9)
+                              field_units=fu, current_units=cu_opt, progress_interval=10**9)
     sol = tdgl.solve(dev, opts, applied_vector_potential=B, **kw)
     _SOL[key] = (sol, B)
     return _SOL[key]
@@ -247,7 +254,7 @@ def run_sol(case):
     A1, A2 = rng.normal(size=(n, 2)), rng.normal(size=(n, 2))
     curr += [("mixA", A1, A2), ("mixB", A2, -0.5 * A1), ("mixSum", A1 + A2, A2 - 0.5 * A1)]
     res.count("basis_currents", len(curr))
-    psets = point_sets()
+    psets = point_sets(scale={"um": 1.0, "nm": 1e3, "mm": 1e-3}[lu])
     results = {}
     for cname, Ks, Kn in curr:
         sol.supercurrent_density = Ks * Junit
